@@ -213,8 +213,12 @@ func verifCapture(name string, f func() error) (string, error) {
 	}
 	old := os.Stdout
 	os.Stdout = file
-	err := f()
-	os.Stdout = old
+	var err error
+	func() {
+		// restored also when f panics, so that the panic is reported on the real stdout
+		defer func() { os.Stdout = old }()
+		err = f()
+	}()
 	file.Close()
 	b, _ := os.ReadFile(p)
 	os.Remove(p)
@@ -464,6 +468,8 @@ var verifNonsense = []verifCLICase{
 	{2, "- values: [\"1\"]\n", []string{"--velocity", "xx"}}, {2, "- values: [\"1\"]\n", []string{"--meter", "0/0"}}, {2, "- values: [\"1\"]\n", []string{"--key", "H"}},
 	{2, "- values: [\"1\"]\n", []string{"--track", "0"}}, {2, "- values: [\"1\"]\n", []string{"--key", "Abm"}}, {2, "- values: [\"1\"]\n  meta: 7\n", nil},
 	{3, "- values: []\n", nil}, {3, "- values: [\"1\"]\n  key: Fb\n", nil},
+	// an instance that is not there at all (YAML null in the list)
+	{2, "- ~\n", nil}, {2, "- values: [\"1\"]\n- null\n", nil}, {3, "- values: [\"1\"]\n-\n- values: [\"1\"]\n", nil},
 	{4, "C[1] ]", nil}, {4, "{", nil}, {4, "C_[1]", nil},
 }
 
